@@ -254,12 +254,41 @@ def rawChecks (prop : String) (line implLine : String) : Option String :=
         guard (!abortedRetained r) "aborted-hosted-command-retained"]
     | _ => some "unknown-property"
 
+/-! extended fragment (`ext` cases: builder chains in which a stream follows a stream, i.e. flatten_unordered; no exact model):
+    the one clause of C07 that needs no reference — a command whose tasks wait only on shell requests reports done once all of
+    them have been resolved or dropped. Request liveness is tracked from the implementation's own line and the case's actions. -/
+def extChecks (line implLine : String) : Option String :=
+  if implLine.startsWith "panic" then some "panicked" else
+  match Sexp.parse line, parseRaw implLine with
+  | some (.list [.atom "ext", _, .list acts]), some p =>
+    match acts.mapM parseAction with
+    | none => some "unparseable-case"
+    | some acts =>
+      -- state: (kind, gone?) per request in emission order
+      let rec go (steps : List PObs) (acts : List (Option Action)) (reqs : List (Char × Bool)) : Option String :=
+        match steps, acts with
+        | [], _ => none
+        | st :: steps', a :: acts' =>
+          let reqs := match a with
+            | some (.res k _) =>
+              if st.res == "ok" then modifyNth reqs k (fun (c, g) => if c == 'o' then (c, true) else (c, g)) else reqs
+            | some (.drop k) => modifyNth reqs k (fun (c, _) => (c, true))
+            | _ => reqs
+          let reqs := reqs ++ st.effs.map fun e => (e.kind, e.kind == 'n')
+          let allGone := !reqs.isEmpty && reqs.all (·.2)
+          if allGone && tailTok "d" st.tail != some "1" then some "retaining-combinator-never-evicted"
+          else go steps' acts' reqs
+        | _ :: _, [] => none
+      go p.steps (none :: acts.map some) []
+  | _, _ => some "unparseable-observation"
+
 def oracle (prop : String) (input : String) : String :=
   match input.splitOn "\t" with
   | [line, impl] =>
     if !isCase line then "bad-case" else
     let kind := match Sexp.parse line with | some (.list (.atom h :: _)) => h | _ => ""
     let r := if kind == "law" || kind == "comm" || kind == "hosts" then canonChecks prop line impl
+             else if kind == "ext" then extChecks line impl
              else rawChecks prop line impl
     match r with
     | none => "ok"
